@@ -85,13 +85,13 @@ def check_one(chk, rep, repo, cls, eff):
                                                                    " (only relevance flags may be written)"))
     # (2) per-sample loop
     per = None
+    from ..schema import node_loop
     for li in w.loops.values():
-        if li.kind == "for" and not li.loops and li.domain[0] == "call" and li.domain[1] == ("builtin", "range") \
-                and len(li.domain[2]) == 1:
-            g = count_of(li.domain[2][0])
-            if g is not None and g[0] == "new":
+        if li.kind == "for" and not li.loops:
+            nlp = node_loop(li)
+            if nlp is not None and nlp[0][0] == "new":
                 per = li
-                Q = g
+                Q, i, x = nlp
     if per is None:
         raise AnalysisError(f"{cls}.predict: per-sample loop over the prediction subgraph not found")
     tainted = {("phi", per.lid, n) for n in per.carried}
@@ -137,16 +137,14 @@ def check_one(chk, rep, repo, cls, eff):
         rep.ev("NI-scratch", ev, arr in covered,
                f"array '{show(arr)}' outlives one sample and is neither reset per sample nor read under a validity test")
     # (3) kinds: the batch position only selects the query node
-    i = ("iter", per.domain, per.lid)
-    x = ("idx", ("attr", Q, "nodes"), i)
     for ev in w.events:
-        if per.lid not in ev.loops or ev.kind == "bind":
+        if per.lid not in ev.loops or ev.kind == "bind" or i is None:
             continue
         tops = [t for t in (ev.target, ev.value) if t is not None] + list(ev.args) + [g for g, _ in ev.guards]
         for top in tops:
             for s in subterms(top):
                 if i in s[1:] if isinstance(s, tuple) else False:
-                    if s != x and s[0] != "iter":
+                    if s != x and s[0] not in ("iter", "iterproj"):
                         rep.ev("NI-position", ev, False,
                                f"the batch position is used for something other than selecting the query node: '{show(s)[:100]}'")
     for ev in w.events:
